@@ -2,6 +2,7 @@ import JadeModel.Proofs.SystemUniqueRows
 import JadeModel.Proofs.SystemUniqueNodeDefs
 import JadeModel.Proofs.SystemUniqueNodeStepA
 import JadeModel.Proofs.SystemUniqueNodeStepB
+import JadeModel.Proofs.SystemUniqueNodeStepC
 
 set_option linter.unusedSimpArgs false
 
@@ -13,8 +14,9 @@ namespace Jade.Sys
 
 theorem nodeW_step {s s' : Sys} {op : Op} (hn : NodeInv s) (hi : NodeW s) (h : step s op = some s') :
     NodeW s' := by
-  obtain ⟨c_queuedRunning, c_fileQueued, c_fileRunning⟩ := nodeW_step_a hn hi h
-  obtain ⟨c_filePending, c_fileBatch, c_uniqN⟩ := nodeW_step_b hn hi h
+  obtain ⟨c_queuedRunning, c_filePending⟩ := nodeW_step_a hn hi h
+  obtain ⟨c_fileQueued, c_fileBatch⟩ := nodeW_step_b hn hi h
+  obtain ⟨c_fileRunning, c_uniqN⟩ := nodeW_step_c hn hi h
   exact ⟨c_queuedRunning, c_fileQueued, c_fileRunning, c_filePending, c_fileBatch, c_uniqN⟩
 
 end Jade.Sys
